@@ -320,6 +320,8 @@ def run(ctx: Ctx):
            and "num_time_mask" in nums[0] and ".floor()" in nums[0],
            f"the number of time masks is capped by {nums}; expected floor(min(lengths * proportion, num_time_mask))", rel, draw.line)
     # apply: interval masks symmetric
+    # ---- S6 every drawn (centre, shift) gives the warp three well-separated knots --------------------------------------
+    _warp_knots(ctx, rel)
     plumbing(ctx, "S1")
     return dict(
         explanation=(
@@ -330,18 +332,119 @@ def run(ctx: Ctx):
             "every path the features are only resampled (only if a warp was drawn, before masking, border-clamped bilinear) "
             "and then filled once with the literal 0.0 under the mask; (S5) time and frequency draws are alpha-equivalent "
             "and have the forms RAND*(L-2H)+H, RAND*2H-H, long(RAND*(cap+1-eps)), long(RAND*(L-width+1-eps)) with the "
-            "documented caps - from which the drawn-parameter bounds follow by real arithmetic. NOT decided: warp "
-            "monotonicity / range / finiteness (spline and grid_sample numerics), output shape."),
-        decided=["S1", "S2", "S3", "S4", "S5"],
+            "documented caps - from which the drawn-parameter bounds follow by real arithmetic; (S6) composing the draw's "
+            "(centre, shift) terms with warp_1d_grid's knot terms, the moved knot stays strictly between the pinned knots "
+            "by more than eps for every draw [known finding F25: it does not]. NOT decided: warp "
+            "monotonicity / range / finiteness given well-separated knots (spline and grid_sample numerics), output shape."),
+        decided=["S1", "S2", "S3", "S4", "S5", "S6"],
         not_decided=["warp monotone, within half a frame of the ends, finite", "interval masks cover exactly the drawn bands at tensor level", "output shape"],
         assumptions=["torch.rand in [0, 1)", ".long() truncates", "real-arithmetic idealisation of the eps tricks"],
     )
+
+
+def _warp_knots(ctx: Ctx, rel: str):
+    """S6: producer/consumer agreement of the time warp. spec_augment_draw_parameters draws (centre, shift); warp_1d_grid
+    turns them into the three knots (first frame, moved frame, last valid frame) of the interpolating spline. The knot
+    terms of both functions are extracted (centre = R1 * (L - 2W) + W, ...; knot = f(min(centre + shift, L - 1).clamp_min(0)),
+    f(p) = (2p + 1) / T - 1, pinned knots f(0) - eps and f(L - 1) + eps) and composed; over a grid of lengths, limits and
+    draws R in (0, 1) the moved knot must stay strictly between the pinned ones by more than the epsilon guard, i.e. the
+    clamp that the draw relies on must never put it onto a pinned knot (where the spline system is singular up to eps)."""
+    from fractions import Fraction
+    from sa import minmax as MM
+    from sa.specialise import NOT_NONE, specialise
+    col, pkg = ctx.col, ctx.pkg
+    draw = pkg.func("_img::spec_augment_draw_parameters")
+    wg = pkg.func("_img::warp_1d_grid")
+    # -- producer: terms of the first two returned slots under (lengths given, max_time_warp truthy)
+    dnode, folded = specialise(draw.node, {"lengths": NOT_NONE, "max_time_warp": 1}, allow_reassigned=("lengths",))
+    rdd = ReachingDefs(dnode)
+    rleaves = []
+
+    def d_leaf_def(d):
+        if d.kind == "param":
+            return {"lengths": "L", "max_time_warp": "MAXW"}.get(d.name)
+        return None
+
+    def d_hook(e, ex, depth):
+        if isinstance(e, ast.Call) and call_name(e) == "_get_tensor_eps":
+            return ("leaf", "EPS")
+        if isinstance(e, ast.Call) and call_name(e) == "torch.rand":
+            nm = f"R{e.lineno}_{e.col_offset}"
+            if nm not in rleaves:
+                rleaves.append(nm)
+            return ("leaf", nm)
+        return None
+    exd = MM.Extractor(rdd, d_leaf_def, lambda e: None, term_hook=d_hook)
+    rets = [n for n in ast.walk(dnode) if isinstance(n, ast.Return) and isinstance(n.value, ast.Tuple) and len(n.value.elts) == 8]
+    if len(rets) != 1:
+        raise AnalysisError("C08: spec_augment_draw_parameters does not return its 8 slots once")
+    # -- consumer: the knots handed to the spline (first argument: destination knots)
+    wnode, _ = specialise(wg.node, {"max_length": NOT_NONE})
+    rdw = ReachingDefs(wnode)
+    P = [p.name for p in wg.params]
+
+    def w_leaf_def(d):
+        if d.kind == "param":
+            return {P[0]: "C", P[1]: "S", P[2]: "L", P[3]: "T"}.get(d.name)
+        return None
+
+    def w_hook(e, ex, depth):
+        if isinstance(e, ast.Call) and call_name(e) == "_get_tensor_eps":
+            return ("leaf", "EPS")
+        if isinstance(e, ast.Call) and call_name(e) == "torch.full" and len(e.args) >= 2:
+            return ex.term(e.args[1], depth + 1)
+        return None
+    exw = MM.Extractor(rdw, w_leaf_def, lambda e: None, term_hook=w_hook)
+    sp = [c for c in ast.walk(wnode) if isinstance(c, ast.Call) and call_name(c) == "polyharmonic_spline"]
+    try:
+        tc, ts = exd.term(rets[0].value.elts[0]), exd.term(rets[0].value.elts[1])
+        if len(sp) != 1:
+            raise MM.Unknown("warp_1d_grid does not call polyharmonic_spline once")
+        knots_e = sp[0].args[0]
+        while isinstance(knots_e, ast.Call) and isinstance(knots_e.func, ast.Attribute) and knots_e.func.attr in MM.PASS_METHODS:
+            knots_e = knots_e.func.value
+        ds = list(rdw.defs_of(knots_e)) if isinstance(knots_e, ast.Name) else []
+        if len(ds) != 1 or not (isinstance(ds[0].value, ast.Call) and call_name(ds[0].value) == "torch.stack"
+                                 and isinstance(ds[0].value.args[0], (ast.List, ast.Tuple)) and len(ds[0].value.args[0].elts) == 3):
+            raise MM.Unknown("destination knots are not a stack of three")
+        k0, k1, k2 = (exw.term(x) for x in ds[0].value.args[0].elts)
+    except MM.Unknown as e:
+        col.undecided(f"C08: warp knots: {e}")
+        return
+    EPS = Fraction(1, 10 ** 6)
+    bad = None
+    n = 0
+    grid_R = (Fraction(1, 100), Fraction(1, 2), Fraction(99, 100))
+    if len(rleaves) != 2:
+        col.undecided(f"C08: expected two uniform draws in the warp parameters, found {len(rleaves)}")
+        return
+    for T in (4, 7):
+        for L in range(2, T + 1):
+            for MAXW in (Fraction(1, 2), 1, 2, 80):
+                for r1 in grid_R:
+                    for r2 in grid_R:
+                        envd = dict(L=L, MAXW=MAXW, EPS=EPS)
+                        envd[rleaves[0]], envd[rleaves[1]] = r1, r2
+                        c, s_ = MM.ev(tc, envd), MM.ev(ts, envd)
+                        envw = dict(C=c, S=s_, L=L, T=T, EPS=EPS)
+                        a, b, d = MM.ev(k0, envw), MM.ev(k1, envw), MM.ev(k2, envw)
+                        n += 1
+                        if not (b - a > 2 * EPS and d - b > 2 * EPS) and bad is None:
+                            bad = dict(T=T, L=L, max_time_warp=str(MAXW), centre=float(c), shift=float(s_),
+                                       knots=[float(a), float(b), float(d)])
+    col.ob("G12", "S6", f"{rel}::spec_augment_draw_parameters->warp_1d_grid::moved-knot-strictly-between-pinned-knots", bad is None,
+           f"the drawn centre `{MM.show(tc)[:90]}` plus shift `{MM.show(ts)[:70]}` ranges over [0, L), but warp_1d_grid clamps "
+           f"the moved knot to [0, L - 1] - exactly the positions of the two pinned knots (offset only by eps): e.g. {bad} puts "
+           f"the moved knot within eps of a pinned one, the spline system is singular up to eps and the linear warp is no "
+           f"longer monotone / within half a frame of the ends", rel, sp[0].lineno, sample=dict(points=n, centre=MM.show(tc)[:100], shift=MM.show(ts)[:80]))
 
 
 def _mutants():
     from selftest.mutate import Mutant as M
     I = "_img.py"
     return [
+        # a scratch copy in which the known finding F25 is repaired (last pinned knot one frame further out) must be silent
+        M("repaired:last-pinned-knot-beyond-the-clamp", "_img.py", "uppers = (2 * lengths - 1) / T - 1.0 + eps", "uppers = (2 * lengths + 1) / T - 1.0 + eps", "", twin=True),
         M("apply-slots-swapped", I, "w_0, w, v_0, v, t_0, t, f_0, f = params", "w_0, w, v_0, v, t, t_0, f_0, f = params", "G"),
         M("draw-return-swapped", I, "return (w_0, w, v_0, v, t_0, t, f_0, f)", "return (w_0, w, v_0, v, f_0, f, t_0, t)", "slot-sources"),
         M("freq-start-ignores-width", I, "f_0 = (torch.rand([N, num_freq_mask], device=device) * (F - f + omeps)).long()", "f_0 = (torch.rand([N, num_freq_mask], device=device) * (F + omeps)).long()", "G"),
@@ -373,9 +476,13 @@ MANIFEST = dict(
         "the 8-slot parameter tuple between the drawing and the applying function, evaluation-mode identity, a path rule on "
         "spec_augment_apply_parameters (only resampling - and only if a warp was drawn - followed by one masked fill with the "
         "literal 0.0), and the time<->frequency sibling symmetry plus the algebraic forms of the bounded draws in polynomial "
-        "normal form, from which the drawn-parameter bounds follow by real arithmetic. Necessary conditions of C08; warp "
-        "numerics (spline, grid_sample) are not decided."),
-    level_note="Trusted: python ast; torch.rand in [0,1), .long() truncation; real-arithmetic idealisation of the eps tricks.",
-    technique="static analysis: sibling alpha-equivalence in polynomial normal form, slot-role dataflow, path typestate, eval-path identity",
+        "normal form, from which the drawn-parameter bounds follow by real arithmetic; and a producer/consumer composition "
+        "of the time warp: the drawn (centre, shift) terms are fed into the knot terms of warp_1d_grid and the moved knot "
+        "must stay more than the epsilon guard away from both pinned knots for every draw on a grid (a well-posed spline "
+        "system is necessary for 'non-decreasing, within half a frame'). Necessary conditions of C08; spline and "
+        "grid_sample numerics are not decided."),
+    level_note="Trusted: python ast; torch.rand in [0,1), .long() truncation; real-arithmetic idealisation of the eps tricks. "
+               "Known finding F25: centre + shift in (L-1, L) is clamped onto the pinned last-frame knot (singular up to eps).",
+    technique="static analysis: sibling alpha-equivalence in polynomial normal form, slot-role dataflow, path typestate, eval-path identity, producer/consumer term composition over a finite grid",
     design_ref="DESIGN.md section 4 C08",
 )
